@@ -52,7 +52,7 @@ DISPLAY_STORES = {"total_time", "overhead", "optim_state[total_time]", "optim_st
 DISPLAY_CALLS = {"timer.stop_timer", "timer.get_duration", "self.logger.info", "self.logger.debug", "self.logger.warning", "self.logger.warn",
                  "np.isscalar"}
 EXTRA_OPT = {"noise_final_samples": ("nfs", "Z"), "specify_target_noise": ("spec", "B")}
-EXTRA_PARAM_TY = {"nfs": "Z", "spec": "B", "am": "Z", "n": "Z", "piter": "Z", "level": "Z"}
+EXTRA_PARAM_TY = {"nfs": "Z", "spec": "B", "am": "Z", "n": "Z", "piter": "Z", "level": "Z", "xn": "Z"}
 
 
 def region(name):
@@ -168,9 +168,95 @@ def size_of(n, vecs):
     return None
 
 
-def exec_vec(stmts, vecs, guards):
-    """the size-1 supplement: `if <vec>.size == 1:` / `if options["specify_target_noise"]:` around `<vec> = np.vstack((<vec>, <field>))`"""
+LOGGER = "self.function_logger"
+
+
+def tr_xn(n):
+    """integer expression over function_logger.Xn (-> parameter xn)"""
+    class Sub(ast.NodeTransformer):
+        def visit(self, node):
+            if isinstance(node, ast.Attribute) and same(node, LOGGER + ".Xn"):
+                return ast.Name(id="__xn", ctx=ast.Load())
+            return self.generic_visit(node)
+    st = TL.State({}, {})
+    st.loc["__xn"] = ("par", "xn")
+    n2 = ast.fix_missing_locations(Sub().visit(ast.parse(ast.unparse(n), mode="eval").body))
+    return TL.coerce(TL.tr(n2, st), "Z", n)
+
+
+def idx_item(n, locs):
+    """<rows local>[<k>] | <idx local> | integer expression over function_logger.Xn  ->  (Coq text, free parameters)"""
+    if isinstance(n, ast.Name) and n.id in locs and locs[n.id][0] == "idx":
+        return locs[n.id][1], locs[n.id][2]
+    if isinstance(n, ast.Subscript) and isinstance(n.value, ast.Name) and n.value.id in locs and locs[n.value.id][0] == "rows" \
+            and isinstance(n.slice, ast.Constant) and type(n.slice.value) is int and n.slice.value >= 0:
+        return f"(nth {n.slice.value} {locs[n.value.id][1]} 0)", locs[n.value.id][2]
+    ir = tr_xn(n)
+    return TL.coq(ir), TL.free(ir)
+
+
+def bind_log_local(s, locs):
+    """idx_u = np.flatnonzero(np.all(<logger>.X[: <upper>] == self.u, axis=1))   |   idx_sd = <a> if idx_u.size > 0 else <b>   -> True when bound"""
+    if not (isinstance(s, ast.Assign) and len(s.targets) == 1 and isinstance(s.targets[0], ast.Name)):
+        return False
+    nm, v = s.targets[0].id, s.value
+    if isinstance(v, ast.Call) and TL.is_np(v.func, "flatnonzero") and len(v.args) == 1 and not v.keywords:
+        a = v.args[0]
+        ok = isinstance(a, ast.Call) and TL.is_np(a.func, "all") and len(a.args) == 1 and len(a.keywords) == 1 and a.keywords[0].arg == "axis" \
+            and isinstance(a.keywords[0].value, ast.Constant) and a.keywords[0].value.value == 1 and isinstance(a.args[0], ast.Compare) \
+            and len(a.args[0].ops) == 1 and isinstance(a.args[0].ops[0], ast.Eq)
+        if not ok:
+            fail(s, "row search of the SD supplement is not np.flatnonzero(np.all(<logger>.X[: <n>] == self.u, axis=1))")
+        c = a.args[0]
+        if place(c.comparators[0]) != "self.u":
+            fail(c, "the logged rows are not compared with self.u")
+        L = c.left
+        free = {"logX", "u"}
+        if same(L, LOGGER + ".X"):
+            rows = "logX"
+        elif isinstance(L, ast.Subscript) and same(L.value, LOGGER + ".X") and isinstance(L.slice, ast.Slice) and L.slice.lower is None and L.slice.step is None \
+                and L.slice.upper is not None:
+            ir = tr_xn(L.slice.upper)
+            rows = f"(firstn (Z.to_nat {TL.coq(ir)}) logX)"
+            free |= TL.free(ir)
+        else:
+            fail(L, "the rows searched are not <logger>.X[: <n>]")
+        locs[nm] = ("rows", f"(rows_eq_from 0 {rows} u)", free)
+        return True
+    if isinstance(v, ast.IfExp):
+        t = v.test
+        rl = None
+        if isinstance(t, ast.Compare) and len(t.ops) == 1:
+            l = t.left
+            if isinstance(l, ast.Attribute) and l.attr == "size" and isinstance(l.value, ast.Name) and l.value.id in locs and locs[l.value.id][0] == "rows":
+                rl = l.value.id
+            elif isinstance(l, ast.Call) and isinstance(l.func, ast.Name) and l.func.id == "len" and len(l.args) == 1 and isinstance(l.args[0], ast.Name) \
+                    and l.args[0].id in locs and locs[l.args[0].id][0] == "rows":
+                rl = l.args[0].id
+        if rl is None:
+            fail(t, "the test of the SD supplement index is not a comparison of the number of matching rows")
+        st = TL.State({}, {})
+        st.loc["__n"] = ("par", "n")
+        t2 = ast.fix_missing_locations(ast.Compare(left=ast.Name(id="__n", ctx=ast.Load()), ops=t.ops, comparators=t.comparators))
+        g = TL.coerce(TL.tr(t2, st), "B", t)
+        a, fa = idx_item(v.body, locs)
+        b, fb = idx_item(v.orelse, locs)
+        locs[nm] = ("idx", f"(let n := Z.of_nat (List.length {locs[rl][1]}) in if {TL.coq(g)} then {a} else {b})", set(locs[rl][2]) | set(fa) | set(fb))
+        return True
+    if isinstance(v, ast.Subscript) and isinstance(v.value, ast.Name) and v.value.id in locs and locs[v.value.id][0] == "rows":
+        a, fa = idx_item(v, locs)
+        locs[nm] = ("idx", a, set(fa))
+        return True
+    return False
+
+
+def exec_vec(stmts, vecs, guards, locs=None):
+    """the size-1 supplement: `if <vec>.size == 1:` / `if options["specify_target_noise"]:` around `<vec> = np.vstack((<vec>, <field>))`;
+    under specified noise the SD supplement <logger>.S[<index>] with <index> computed from the logged rows (local bindings, see bind_log_local)"""
+    locs = {} if locs is None else locs
     for s in stmts:
+        if bind_log_local(s, locs):
+            continue
         if isinstance(s, ast.If):
             t = s.test
             if isinstance(t, ast.Compare) and len(t.ops) == 1 and size_of(t.left, vecs) is not None:
@@ -188,8 +274,8 @@ def exec_vec(stmts, vecs, guards):
             else:
                 fail(t, "test of the supplement block not understood")
             a, b = dict(vecs), dict(vecs)
-            exec_vec(s.body, a, guards)
-            exec_vec(s.orelse, b, guards)
+            exec_vec(s.body, a, guards, dict(locs))
+            exec_vec(s.orelse, b, guards, dict(locs))
             for k in vecs:
                 vecs[k] = a[k] if a[k] == b[k] else ("ite", c, a[k], b[k])
             continue
@@ -200,10 +286,15 @@ def exec_vec(stmts, vecs, guards):
                 x = v.args[0].elts[1]
                 if place(x) in FIELD:
                     f = FIELD[place(x)]
-                elif same(x, "self.function_logger.S[self.function_logger.Xn]"):
-                    f = "sdlast"
+                elif isinstance(x, ast.Subscript) and same(x.value, LOGGER + ".S"):
+                    # the SD supplement: emitted as its own definition src_fs_sdsuppl over the log; the vectors take its VALUE as the parameter sdsup
+                    txt, fr = idx_item(x.slice, locs)
+                    if "sdsuppl" in guards and guards["sdsuppl"][0] != f"(nthq logS {txt})":
+                        fail(x, "two different SD supplements")
+                    guards["sdsuppl"] = (f"(nthq logS {txt})", set(fr) | {"logS"})
+                    f = "sdsup"
                 else:
-                    fail(x, "supplement value is not self.yval / self.fval / self.fsd / function_logger.S[function_logger.Xn]")
+                    fail(x, "supplement value is not self.yval / self.fval / self.fsd / function_logger.S[<index>]")
                 vecs[s.targets[0].id] = ("app", vecs[s.targets[0].id], f)
                 continue
         fail(s, "statement of the supplement block not understood")
@@ -445,7 +536,7 @@ def parse_tail(fn, defs, info):
     if "suppl" not in guards:
         guards["suppl"] = ("bool", False)
     yv = stored["optim_state[yval_vec]"]
-    VP = ["ys", "sds", "cy", "cf", "cs", "sdlast", "spec"]
+    VP = ["ys", "sds", "cy", "cf", "cs", "sdsup", "spec"]
     defs.append(("fs_alloc_y", ["nfs"], "Z", TL.coq(vec_alloc[[k for k, v in vecs.items()][0]]), TL.free(vec_alloc[[k for k in vecs][0]])))
     defs.append(("fs_alloc_sd", ["nfs"], "Z", TL.coq(vec_alloc[[k for k in vecs][1]]), TL.free(vec_alloc[[k for k in vecs][1]])))
     defs.append(("fs_count", ["nfs"], "Z", TL.coq(cnt), TL.free(cnt)))
@@ -454,6 +545,8 @@ def parse_tail(fn, defs, info):
     defs.append(("fs_suppl_guard", ["n"], "bool", TL.coq(guards["suppl"]), TL.free(guards["suppl"])))
     defs.append(("fs_yvec", VP, "list Q", v_coq(yv), v_free(yv)))
     defs.append(("fs_sdvec", VP, "list Q", v_coq(stored["optim_state[ysd_vec]"]), v_free(stored["optim_state[ysd_vec]"])))
+    sup = guards.get("sdsuppl", ("(0 # 1)", set()))
+    defs.append(("fs_sdsuppl", ["logX", "logS", "u", "xn"], "Q", sup[0], sup[1]))
     # fval = mean(<stored y vector>)
     fv_node, fv_vecs = est["self.fval"]
     m = stat_of(fv_node, fv_vecs, "mean")
@@ -650,12 +743,12 @@ def parse_result(defs, info):
 # ----------------------------------------------------------------------------- driver
 
 BINDER_TY = {"level": "Z", "piter": "Z", "nfs": "Z", "am": "Z", "n": "Z", "fq": "Q", "sigma": "Q", "h_fval": "Q", "h_fsd": "Q",
-             "ys": "list Q", "sds": "list Q", "cy": "Q", "cf": "Q", "cs": "Q", "sdlast": "Q", "spec": "bool"}
+             "ys": "list Q", "sds": "list Q", "cy": "Q", "cf": "Q", "cs": "Q", "sdsup": "Q", "spec": "bool", "logX": "list (list Q)", "logS": "list Q", "u": "list Q", "xn": "Z"}
 
 REGION_OF = {"final_guard": "guard", "sel_quantile_arg": "select", "sel_score": "select", "sel_skip": "select", "sel_idx_y": "select", "sel_idx_f": "select",
              "sel_idx_s": "select", "sel_idx_u": "select", "sel_keys": "select", "fs_guard": "resample", "fs_alloc_y": "resample", "fs_alloc_sd": "resample",
              "fs_count": "resample", "fs_call_arg": "resample", "fs_record_flag": "resample", "fs_suppl_guard": "resample", "fs_yvec": "resample",
-             "fs_sdvec": "resample", "fs_fval_is_mean_of_yvec": "resample", "fs_fsd_is_std_over_sqrt": "resample", "fs_sem_div": "resample",
+             "fs_sdvec": "resample", "fs_sdsuppl": "resample", "fs_fval_is_mean_of_yvec": "resample", "fs_fsd_is_std_over_sqrt": "resample", "fs_sem_div": "resample",
              "x_source": "x", "result_ctor_arg": "result", "result_assembly": "result"}
 
 
@@ -689,9 +782,9 @@ def render(defs):
              "   Parameters: level = optim_state['uncertainty_handling_level'], piter = the local poll_iteration, nfs = options['noise_final_samples'] (after the reserve),",
              "   fq = options['final_quantile'], sigma = sqrt(2) * erfcinv(src_sel_quantile_arg fq) (oracle), h_fval / h_fsd = one row of the re-estimated history,",
              "   am = np.argmin over the scores without their first src_sel_skip rows (oracle), ys / sds = the fresh observations / reported SDs in call order,",
-             "   cy cf cs = yval / fval / fsd of the chosen iterate, sdlast = function_logger.S[function_logger.Xn], spec = options['specify_target_noise'],",
+             "   cy cf cs = yval / fval / fsd of the chosen iterate, sdsup = src_fs_sdsuppl logX logS u xn (the SD supplement; logX / logS = the logger's X / S rows, u = self.u, xn = function_logger.Xn), spec = options['specify_target_noise'],",
              "   n = size of the stored y vector.  src_fs_call_arg: 0 = self.u, 1 = self.x, 2 = self.u_best. *)",
-             "From Coq Require Import ZArith QArith Bool List String.", "Import ListNotations.", "Open Scope Z_scope.", ""]
+             "From Coq Require Import ZArith QArith Bool List String.", "From PV Require Import Model.FinalLib.", "Import ListNotations.", "Open Scope Z_scope.", ""]
     for name, params, t, body, fr in defs:
         binder = "".join(f" ({p} : {BINDER_TY[p]})" for p in params)
         if t in ("string", "list string", "list (string * string)"):
